@@ -9,6 +9,9 @@ independent pure-python model pyref/rfc9380.py (hashlib + int).  stdlib only, de
 Sections of the output (every section is replayed completely by harness/src/bin/c13.rs):
   xmd      hash_to_field vectors for (field, hash, k) where L == input block size of the hash, i.e. where the
            library's ExpanderXmd pads as the RFC does; the expander is observed through hash_to_field.
+  xmd_m3   hash_to_field vectors for a field of extension degree 3 (mnt6_298 Fq3, SHA-256, k = 128): the element
+           offset arithmetic L * (j + i * m) with m = 3, counts 1..4 (uniform_bytes included for the harness's own
+           OS2IP cross-check).
   xmd_pad  hash_to_field vectors for (field, hash, k) where L != block size (latent hazard `expand_xmd_block_pad`):
            `e` is the RFC value, `e_lpad` the value of a model that pads with L zero bytes (triage aid only).
   h2c      hash_to_curve vectors (u, Q0, Q1, P) for the BLS12-381 RFC suites and the library's BLS12-377 suites.
@@ -72,7 +75,9 @@ TAG_LENS = [0, 1, 16, 43, 255, 256, 257, 300]
 P_BLS381_FR = R.R381
 P_SECP256K1 = 2**256 - 2**32 - 977
 P_MNT4_753 = 41898490967918953402344214791240637128170709919953949071783502921025352812571106773058893763790338921418070971888253786114353726529584385201591605722013126468931404347949840543007986327743462853720628051692141265303114721689601
+P_MNT6_298 = 475922286169261325753349249653048451545124878552823515553267735739164647307408490559963137
 FIELDS = {
+    "mnt6_298_fq3": (P_MNT6_298, 3),
     "bls12_381_fq": (R.P381, 1),
     "bls12_381_fq2": (R.P381, 2),
     "bls12_377_fq": (R.P377, 1),
@@ -251,6 +256,23 @@ def gen_xmd():
     return out
 
 
+def gen_xmd_m3():
+    """extension degree 3: every coordinate offset L * (j + i * m), j in 0..3, for counts 1..4"""
+    out = []
+    few_msgs = [b"", b"abc", patt(64, 31, 7)]
+    fid, hn, k = "mnt6_298_fq3", "sha256", 128
+    p, m = FIELDS[fid]
+    assert m == 3
+    L = R.L_of(p, k)
+    for dst in [tag(n) for n in TAG_LENS]:
+        for msg in few_msgs:
+            for count in (1, 2, 3, 4):
+                ub, e = h2f_entry(fid, hn, k, msg, dst, count)
+                assert len(ub) == count * m * L and all(len(x) == m for x in e)
+                out.append({"f": fid, "h": hn, "k": k, "L": L, "msg": msg.hex(), "dst": dst.hex(), "n": count, "e": e, "ub": ub.hex()})
+    return out
+
+
 def gen_xmd_pad():
     out = []
     for fid, hn, k in (("bls12_381_fr", "sha256", 128), ("bls12_381_fr", "sha512", 128), ("bls12_381_fq", "sha512", 128),
@@ -381,7 +403,7 @@ def gen_ell2():
 
 
 def render():
-    sections = [("xmd", gen_xmd()), ("xmd_pad", gen_xmd_pad()), ("xmd_len", gen_xmd_len()), ("h2c", gen_h2c()), ("map", gen_map()), ("ell2", gen_ell2())]
+    sections = [("xmd", gen_xmd()), ("xmd_m3", gen_xmd_m3()), ("xmd_pad", gen_xmd_pad()), ("xmd_len", gen_xmd_len()), ("h2c", gen_h2c()), ("map", gen_map()), ("ell2", gen_ell2())]
     lines = ["{"]
     lines.append('"generator": "gen/h2c_vectors.py + pyref/rfc9380.py (pure python: hashlib + int)",')
     lines.append('"fields": ' + json.dumps({k: {"p": hx(v[0]), "m": v[1]} for k, v in sorted(FIELDS.items())}, sort_keys=True) + ",")
@@ -420,7 +442,7 @@ def main():
     with open(OUT, "w") as f:
         f.write(text)
     d = json.loads(text)
-    print("wrote %s: %s" % (OUT, ", ".join("%s=%d" % (k, len(d[k])) for k in ("xmd", "xmd_pad", "xmd_len", "h2c", "map", "ell2"))))
+    print("wrote %s: %s" % (OUT, ", ".join("%s=%d" % (k, len(d[k])) for k in ("xmd", "xmd_m3", "xmd_pad", "xmd_len", "h2c", "map", "ell2"))))
     return 0
 
 
